@@ -6,7 +6,7 @@ HEAD = "import sys\nsys.path.insert(0, '/verif')\nfrom replay_lib.opt_native imp
 
 
 # inductive loop invariants of functions under a C09 contract (obligation names: <function>.loop<k>.<init|preserve>.<label>)
-LOOP_FUNCTIONS = ("_check_dims_sufficient", "_check_expand_removable", "_compute_broadcast_shape")
+LOOP_FUNCTIONS = ("_check_dims_sufficient", "_check_expand_removable", "_compute_broadcast_shape", "size", "TransposeTranspose._apply_transpose")
 
 
 def INCLUDE(name):
